@@ -14,14 +14,20 @@ RULE = (
 )
 ASSUMPTIONS = ["costs and assigned labels are read from the fitted model (their correctness is C01/C15)"]
 BUDGET = {
-    "quick": {"examples": 2400, "shards": 8, "min_nontrivial": 300},
-    "thorough": {"examples": 48000, "shards": 16, "min_nontrivial": 6000, "max_wall": 3000},
+    "quick": {"examples": 9600, "shards": 16, "min_nontrivial": 300},
+    "thorough": {"examples": 192000, "shards": 16, "min_nontrivial": 6000, "max_wall": 3000},
 }
+
+
+ALL_NONNEG = sorted(n for n in __import__("pbt.common.metrics", fromlist=["x"]).NAMES if n not in ("statistic",))
 
 
 def strategy(tier):
     nmax = 10 if tier == "quick" else 30
-    return supcase.sup_case(nmax=nmax, kinds=("sup", "sup", "semi"), nq=(1, 8), nu=(0, 4))
+    sym = supcase.sup_case(nmax=nmax, kinds=("sup", "sup", "semi"), nq=(1, 8), nu=(0, 4))
+    # "for every metric": also the asymmetric divergences (costs / labels are taken from the model, only predict is decided here)
+    anym = supcase.sup_case(nmax=nmax, kinds=("sup", "semi"), nq=(1, 8), nu=(0, 3), modes=("feat",), metrics=["neyman", "pearson", "kullback_leibler", "k_divergence", "gaussian"])
+    return st.one_of(sym, sym, sym, anym)
 
 
 def enumerate_cases(tier):
@@ -54,11 +60,13 @@ def check_predictions(r, case):
 
 
 def check_case(case):
-    r = supcase.run(case, predict=True)
+    r = supcase.run(case, predict=True, need_symmetric=False)
     if isinstance(r, str):
         return Outcome.discard(r)
     ntc, early = check_predictions(r, case)
     cl = ["model_" + case["model"], "mode_" + case["mode"]]
+    if case["mode"] == "feat" and case["metric"] in ("neyman", "pearson", "kullback_leibler", "k_divergence"):
+        cl.append("asymmetric_metric")
     if early:
         cl.append("early_exit_possible")
     if case["mode"] == "pre":
